@@ -130,7 +130,12 @@ def validate_job_dir_and_return_meta(output_dir):
         glob.glob(os.path.join(output_dir, "*", "screen_metadata.json"))
     )
 
-    if len(screen_metadata) == 0:
+    # the metadata of a prospective step depends on the input screen only, so it
+    # can be published before the plate selection: a step is complete only when
+    # its selection has been recorded as well
+    selected_plate = list(glob.glob(os.path.join(output_dir, "*", "selected_plate")))
+
+    if len(screen_metadata) == 0 or len(selected_plate) == 0:
         return None
 
     screen_metadata = screen_metadata[0]
